@@ -3,6 +3,7 @@ CONSTANTS
   Procs <- P3
   Types <- XpTypes
   ChildSeq <- XpChild
+  Invalid <- NoneInvalid
   Pkg <- XpPkg
   CallChoices <- XpCalls3
   Guard = "mutex"
